@@ -1,0 +1,94 @@
+//go:build verif
+
+package btree
+
+import "fmt"
+
+// VerifCheck walks the tree and checks the structural invariants of a B-tree of the
+// configured degree: items strictly ascending in order, len(children) is 0 or
+// len(items)+1, every node except the root holds between degree-1 and 2*degree-1
+// items (the root at most 2*degree-1; an empty root has no children), all leaves are at
+// the same depth, and length equals the number of items. Read-only; build tag "verif".
+func (t *BTree) VerifCheck() error {
+	if t.root == nil {
+		if t.length != 0 {
+			return fmt.Errorf("nil root but length %d", t.length)
+		}
+		return nil
+	}
+	var count int
+	var leafDepth = -1
+	var prev Item
+	var walk func(n *node, depth int, isRoot bool) error
+	walk = func(n *node, depth int, isRoot bool) error {
+		var ni = len(n.items)
+		if ni > t.maxItems() {
+			return fmt.Errorf("node at depth %d holds %d items > max %d", depth, ni, t.maxItems())
+		}
+		if isRoot {
+			if ni == 0 && len(n.children) != 0 {
+				return fmt.Errorf("root holds no item but has children")
+			}
+		} else if ni < t.minItems() {
+			return fmt.Errorf("node at depth %d holds %d items < min %d", depth, ni, t.minItems())
+		}
+		if len(n.children) != 0 && len(n.children) != ni+1 {
+			return fmt.Errorf("node at depth %d: %d items but %d children", depth, ni, len(n.children))
+		}
+		if len(n.children) == 0 {
+			if leafDepth == -1 {
+				leafDepth = depth
+			} else if leafDepth != depth {
+				return fmt.Errorf("leaves at depths %d and %d", leafDepth, depth)
+			}
+		}
+		for i := 0; i < ni; i++ {
+			if len(n.children) != 0 {
+				if n.children[i] == nil {
+					return fmt.Errorf("nil child at depth %d", depth)
+				}
+				if err := walk(n.children[i], depth+1, false); err != nil {
+					return err
+				}
+			}
+			if n.items[i] == nil {
+				return fmt.Errorf("nil item at depth %d", depth)
+			}
+			if prev != nil && !prev.Less(n.items[i]) {
+				return fmt.Errorf("items out of order at depth %d: %v then %v", depth, prev, n.items[i])
+			}
+			prev = n.items[i]
+			count++
+		}
+		if len(n.children) != 0 {
+			if n.children[ni] == nil {
+				return fmt.Errorf("nil child at depth %d", depth)
+			}
+			if err := walk(n.children[ni], depth+1, false); err != nil {
+				return err
+			}
+		}
+		return nil
+	}
+	if err := walk(t.root, 0, true); err != nil {
+		return err
+	}
+	if count != t.length {
+		return fmt.Errorf("length %d but %d items in the tree", t.length, count)
+	}
+	return nil
+}
+
+// VerifShape reports the height of the tree and the number of items in the root.
+func (t *BTree) VerifShape() (height int, rootItems int) {
+	if t.root == nil {
+		return 0, 0
+	}
+	rootItems = len(t.root.items)
+	for n := t.root; ; n = n.children[0] {
+		height++
+		if len(n.children) == 0 {
+			return
+		}
+	}
+}
